@@ -63,9 +63,11 @@ def run_govc(pid, tier, outdir, extra=None):
 
 def run_property(pid, tier, seed):
     t0 = time.time()
-    os.makedirs(os.path.join(ROOT, "evidence"), exist_ok=True)
+    # seed tests redirect evidence so that the committed files (unchanged tree) are not clobbered
+    ev_dir = os.environ.get("VERIF_EVIDENCE_DIR") or os.path.join(ROOT, "evidence")
+    os.makedirs(ev_dir, exist_ok=True)
     os.makedirs(os.path.join(ROOT, "replays", pid), exist_ok=True)
-    ev_path = os.path.join(ROOT, "evidence", pid + ".json")
+    ev_path = os.path.join(ev_dir, pid + ".json")
     if os.path.exists(ev_path):
         os.remove(ev_path)
     if not os.path.exists(os.path.join(ROOT, "bin", "govc")):
